@@ -151,12 +151,22 @@ class Target:
                 import ast as _ast
                 ex = self.extracted()
                 _, globs = self.module()
-                code = compile(_ast.fix_missing_locations(_ast.Module(body=ex.node.body, type_ignores=[])),
+                # the statements become the body of a function (they may contain `return`); its locals are the result
+                names = list(st.kwargs)
+                body = list(ex.node.body) + [_ast.parse("return ('__env__', locals())").body[0]]
+                fn = _ast.FunctionDef(name='__slice__', args=_ast.arguments(
+                    posonlyargs=[], args=[_ast.arg(arg=n) for n in names], vararg=None, kwonlyargs=[], kw_defaults=[],
+                    kwarg=None, defaults=[]), body=body, decorator_list=[], returns=None, type_comment=None, type_params=[])
+                code = compile(_ast.fix_missing_locations(_ast.Module(body=[fn], type_ignores=[])),
                                '<slice of %s>' % self.qualname, 'exec')
-                env = dict(st.kwargs)
-                exec(code, globs, env)
-                st.env = env
-                return Outcome('return', None)
+                ns = {}
+                exec(code, globs, ns)
+                r = ns['__slice__'](**st.kwargs)
+                if isinstance(r, tuple) and len(r) == 2 and r[0] == '__env__':
+                    st.env = r[1]
+                    return Outcome('return', None)
+                st.env = dict(st.kwargs)
+                return Outcome('return', r)
             free = getattr(st, 'free', None)
             if free:
                 import ast as _ast
